@@ -1,8 +1,686 @@
-//! (stub) family `corrupt` - see CONTRIBUTING.md
-use anyhow::{bail, Result};
+//! C17 driver: single-fault corruption of every file of small committed indexes.
+//!
+//! For each scenario a small index is built (2 segments, tombstones, a pending write-ahead log,
+//! text/keyword/numeric fields). The pristine observation battery is recorded, then every chosen
+//! damage (flip one byte with a mask, or truncate to a length) is applied *in place* (the manifest
+//! stores absolute segment paths, so a relocated copy would read the original's files), the real
+//! open / reader / search battery / log replay / writer run under `catch_unwind`, and the file is
+//! restored. This module only records what happened; spec/Trace_Integrity.tla decides whether the
+//! outcome is allowed for the class of the damaged file.
 
-use crate::util::Args;
+use std::collections::BTreeMap;
+use std::panic::AssertUnwindSafe;
+use std::path::{Path, PathBuf};
 
-pub fn main(_args: &Args) -> Result<()> {
-  bail!("family corrupt is not implemented yet")
+use anyhow::{anyhow, Result};
+use rand::rngs::StdRng;
+use rand::Rng;
+use serde_json::{json, Value};
+
+use searchlite_core::api::types::StorageType;
+use searchlite_core::api::Index;
+use searchlite_core::storage::FsStorage;
+use searchlite_core::wal::{Wal, WalEntry};
+
+use crate::history::IDS;
+use crate::util::*;
+
+pub const MASKS: [u8; 3] = [0x01, 0x80, 0xFF];
+
+pub fn schema_json() -> Value {
+  json!({
+    "doc_id_field": "_id",
+    "text_fields": [
+      {"name": "body", "analyzer": "default", "stored": true, "indexed": true, "nullable": false}
+    ],
+    "keyword_fields": [
+      {"name": "tag", "stored": true, "indexed": true, "fast": true, "nullable": true}
+    ],
+    "numeric_fields": [
+      {"name": "ver", "i64": true, "fast": true, "stored": true, "nullable": false},
+      {"name": "price", "i64": false, "fast": true, "stored": true, "nullable": true}
+    ],
+    "nested_fields": []
+  })
+}
+
+pub fn make_doc(id: &str, ver: u64, r: &mut StdRng) -> Value {
+  let mut d = serde_json::Map::new();
+  d.insert("_id".into(), json!(id));
+  d.insert("body".into(), json!(format!("w{ver} common {id} x{}", ver % 2)));
+  d.insert("ver".into(), json!(ver));
+  d.insert("tag".into(), json!(format!("t{}", ver % 2)));
+  if chance(r, 1, 2) {
+    d.insert("price".into(), json!(ver as f64 + 0.5));
+  }
+  Value::Object(d)
+}
+
+/// Two committed segments with tombstones in the first one, then 2-3 queued operations that stay
+/// in the write-ahead log (the handle is dropped without commit).
+/// `with_marker`: the log additionally starts with an already committed add and a commit marker
+/// (the state a crash between writing the marker and truncating the log leaves behind).
+pub fn build_index(root: &Path, r: &mut StdRng, with_marker: bool) -> Result<Value> {
+  let schema = schema_from_json(schema_json());
+  let idx = Index::create(root, schema, opts(root, StorageType::Filesystem))?;
+  let mut ver = 0u64;
+  let n1 = r.gen_range(3..=5usize);
+  let ids = &IDS[..7];
+  let mut plan = Vec::new();
+  {
+    let mut w = idx.writer()?;
+    for id in ids.iter().take(n1) {
+      ver += 1;
+      w.add_document(&doc_from_json(make_doc(id, ver, r)))?;
+      plan.push(json!({"seg": 1, "op": "add", "id": id, "ver": ver}));
+    }
+    w.commit()?;
+  }
+  {
+    let mut w = idx.writer()?;
+    // upsert one document of the first segment, delete another, add new ones
+    let up = ids[r.gen_range(0..n1)];
+    let mut del = ids[r.gen_range(0..n1)];
+    if del == up {
+      del = ids[(ids.iter().position(|x| *x == up).unwrap() + 1) % n1];
+    }
+    ver += 1;
+    w.add_document(&doc_from_json(make_doc(up, ver, r)))?;
+    plan.push(json!({"seg": 2, "op": "add", "id": up, "ver": ver}));
+    w.delete_documents(&[del.to_string()])?;
+    plan.push(json!({"seg": 2, "op": "del", "id": del, "ver": 0}));
+    let n2 = r.gen_range(1..=2usize);
+    for id in ids.iter().skip(n1).take(n2) {
+      ver += 1;
+      w.add_document(&doc_from_json(make_doc(id, ver, r)))?;
+      plan.push(json!({"seg": 2, "op": "add", "id": id, "ver": ver}));
+    }
+    w.commit()?;
+  }
+  if with_marker {
+    let storage: std::sync::Arc<dyn searchlite_core::storage::Storage> =
+      std::sync::Arc::new(FsStorage::new(root.to_path_buf()));
+    let mut wal = Wal::open(storage, &root.join("wal.log"))?;
+    wal.append_add_doc(&doc_from_json(make_doc(ids[n1], ver, r)))?;
+    wal.append_commit()?;
+    wal.sync()?;
+    plan.push(json!({"seg": 0, "op": "marker", "id": ids[n1], "ver": ver}));
+  }
+  {
+    let mut w = idx.writer()?;
+    let npend = r.gen_range(2..=3usize);
+    for k in 0..npend {
+      if k == 1 {
+        let id = ids[r.gen_range(0..n1)];
+        w.delete_documents(&[id.to_string()])?;
+        plan.push(json!({"seg": 0, "op": "del", "id": id, "ver": 0}));
+      } else {
+        ver += 1;
+        let id = ids[r.gen_range(0..ids.len())];
+        w.add_document(&doc_from_json(make_doc(id, ver, r)))?;
+        plan.push(json!({"seg": 0, "op": "add", "id": id, "ver": ver}));
+      }
+    }
+    drop(w); // fsyncs the log, nothing is committed
+  }
+  Ok(Value::Array(plan))
+}
+
+// ------------------------------------------------------------------------------------------------
+// observation battery
+// ------------------------------------------------------------------------------------------------
+
+pub fn battery() -> Vec<(&'static str, Value)> {
+  vec![
+    (
+      "match_all_stored",
+      json!({"query": {"type": "match_all"}, "limit": 100, "return_stored": true,
+             "highlight_field": null, "execution": "bm25"}),
+    ),
+    (
+      "term_body_common",
+      json!({"query": {"type": "term", "field": "body", "value": "common"}, "limit": 100,
+             "return_stored": true, "highlight_field": null, "execution": "bm25"}),
+    ),
+    (
+      "term_body_x1_wand",
+      json!({"query": {"type": "term", "field": "body", "value": "x1"}, "limit": 100,
+             "return_stored": false, "highlight_field": null, "execution": "wand"}),
+    ),
+    (
+      "filter_tag_t1",
+      json!({"query": {"type": "match_all"}, "limit": 100, "return_stored": true,
+             "highlight_field": null, "execution": "bm25",
+             "filter": {"KeywordEq": {"field": "tag", "value": "t1"}}}),
+    ),
+    (
+      "sort_ver_desc",
+      json!({"query": {"type": "match_all"}, "limit": 100, "return_stored": false,
+             "highlight_field": null, "execution": "bm25",
+             "sort": [{"field": "ver", "order": "desc"}]}),
+    ),
+  ]
+}
+
+pub fn fnv(s: &str) -> String {
+  let mut h: u64 = 0xcbf2_9ce4_8422_2325;
+  for b in s.bytes() {
+    h ^= b as u64;
+    h = h.wrapping_mul(0x0000_0100_0000_01b3);
+  }
+  format!("{h:016x}")
+}
+
+/// Canonical text of a search result: total, then hits in returned order with score bits and the
+/// stored fields (key-sorted JSON).
+fn result_text(res: &searchlite_core::api::reader::SearchResult) -> String {
+  let mut s = format!("total={}", res.total_hits_estimate);
+  for h in res.hits.iter() {
+    s.push_str(&format!(
+      " | {} s={:08x} f={}",
+      h.doc_id,
+      h.score.to_bits(),
+      h.fields.as_ref().map(|f| f.to_string()).unwrap_or_default()
+    ));
+  }
+  s
+}
+
+#[derive(Clone, Debug, Default)]
+pub struct Probe {
+  pub open_ok: bool,
+  pub reader_ok: bool,
+  pub search_ok: bool,
+  pub panicked: bool,
+  pub err: String,
+  pub obs: Vec<String>,   // digests, one per battery query that ran
+  pub texts: Vec<String>, // the canonical texts (for witnesses only)
+  pub replay_ok: bool,
+  pub replay: Vec<String>,
+  pub pending: Vec<String>,
+  pub writer_ok: bool,
+}
+
+fn entry_text(e: &WalEntry) -> String {
+  match e {
+    WalEntry::AddDoc(d) => format!("add:{}", fnv(&serde_json::to_string(&d.fields).unwrap_or_default())),
+    WalEntry::DeleteDocId(id) => format!("del:{id}"),
+    WalEntry::Commit => "commit".to_string(),
+  }
+}
+
+fn short(e: &str) -> String {
+  e.chars().take(160).collect()
+}
+
+/// Everything the property talks about, on the index currently at `root`.
+/// `with_writer`: also create a writer handle when the index did not open or read (it always is
+/// created when the reader works; creating one costs an fsync of the log when it is dropped).
+pub fn probe(root: &Path, with_writer: bool) -> Probe {
+  let root = root.to_path_buf();
+  let mut out = Probe::default();
+  let res = std::panic::catch_unwind(AssertUnwindSafe(|| {
+    let idx = match Index::open(opts(&root, StorageType::Filesystem)) {
+      Ok(i) => i,
+      Err(e) => {
+        out.err = short(&format!("open: {e:#}"));
+        return;
+      }
+    };
+    out.open_ok = true;
+    match idx.reader() {
+      Ok(reader) => {
+        out.reader_ok = true;
+        out.search_ok = true;
+        for (name, req) in battery() {
+          match reader.search(&request(req)) {
+            Ok(res) => {
+              let t = result_text(&res);
+              out.obs.push(fnv(&t));
+              out.texts.push(t);
+            }
+            Err(e) => {
+              out.search_ok = false;
+              out.err = short(&format!("search {name}: {e:#}"));
+              break;
+            }
+          }
+        }
+      }
+      Err(e) => out.err = short(&format!("reader: {e:#}")),
+    }
+    let storage = FsStorage::new(root.clone());
+    let wal_path = root.join("wal.log");
+    match (Wal::replay(&storage, &wal_path), Wal::last_pending_ops(&storage, &wal_path)) {
+      (Ok(a), Ok(p)) => {
+        out.replay_ok = true;
+        out.replay = a.iter().map(entry_text).collect();
+        out.pending = p.iter().map(entry_text).collect();
+      }
+      (Err(e), _) | (_, Err(e)) => {
+        if out.err.is_empty() {
+          out.err = short(&format!("wal: {e:#}"));
+        }
+      }
+    }
+    if !(with_writer || out.reader_ok) {
+      return;
+    }
+    match idx.writer() {
+      Ok(w) => {
+        out.writer_ok = true;
+        drop(w);
+      }
+      Err(e) => {
+        if out.err.is_empty() {
+          out.err = short(&format!("writer: {e:#}"));
+        }
+      }
+    }
+  }));
+  if let Err(p) = res {
+    out.panicked = true;
+    let msg = p
+      .downcast_ref::<String>()
+      .cloned()
+      .or_else(|| p.downcast_ref::<&str>().map(|s| s.to_string()))
+      .unwrap_or_else(|| "panic".to_string());
+    out.err = short(&format!("panic: {msg}"));
+  }
+  out
+}
+
+/// The harness's own reading of the raw facts (for humans; the trace specification derives the
+/// class itself from the raw fields and reports a TOOL message when the two disagree).
+pub fn outcome_class(class: &str, p: &Probe, pristine: &Probe) -> &'static str {
+  let base = base_class(p, pristine);
+  if class == "wal" && base == "SameResults" {
+    if !(p.replay_ok && p.writer_ok) {
+      return "OpenErr";
+    }
+    let mut pend: Vec<String> = Vec::new();
+    for e in p.replay.iter() {
+      if e == "commit" {
+        pend.clear();
+      } else {
+        pend.push(e.clone());
+      }
+    }
+    let prefix = p.replay.len() <= pristine.replay.len() && p.replay[..] == pristine.replay[..p.replay.len()];
+    return if prefix && pend == p.pending { "PendingPrefix" } else { "PendingNotPrefix" };
+  }
+  base
+}
+
+fn base_class(p: &Probe, pristine: &Probe) -> &'static str {
+  if p.panicked {
+    "Panic"
+  } else if !p.open_ok || !p.reader_ok {
+    "OpenErr"
+  } else if !p.search_ok {
+    "SearchErr"
+  } else if p.obs == pristine.obs {
+    "SameResults"
+  } else {
+    "DifferentResults"
+  }
+}
+
+// ------------------------------------------------------------------------------------------------
+// JSON pointer class of every byte of a JSON text
+// ------------------------------------------------------------------------------------------------
+
+/// For every byte of `data` (a JSON document) the pointer class of the token it belongs to:
+/// `<pointer with array indices replaced by *>#<role>`, role = key | num | str | bool | null for
+/// tokens, `struct` for braces, brackets, commas and colons, `ws` for white space.
+pub fn pointer_classes(data: &[u8]) -> Vec<String> {
+  let mut cls: Vec<String> = vec![String::new(); data.len()];
+  let mut p = JsonWalk { d: data, i: 0, cls: &mut cls };
+  p.value("");
+  let end = p.i;
+  for c in cls.iter_mut().skip(end) {
+    if c.is_empty() {
+      *c = "#ws".to_string();
+    }
+  }
+  cls
+}
+
+struct JsonWalk<'a> {
+  d: &'a [u8],
+  i: usize,
+  cls: &'a mut Vec<String>,
+}
+
+impl<'a> JsonWalk<'a> {
+  fn mark(&mut self, from: usize, to: usize, ptr: &str, role: &str) {
+    for k in from..to.min(self.d.len()) {
+      self.cls[k] = format!("{ptr}#{role}");
+    }
+  }
+  fn ws(&mut self, ptr: &str) {
+    let s = self.i;
+    while self.i < self.d.len() && matches!(self.d[self.i], b' ' | b'\n' | b'\r' | b'\t') {
+      self.i += 1;
+    }
+    self.mark(s, self.i, ptr, "ws");
+  }
+  fn string(&mut self) -> (usize, usize, String) {
+    let s = self.i;
+    self.i += 1;
+    let mut text = Vec::new();
+    while self.i < self.d.len() && self.d[self.i] != b'"' {
+      if self.d[self.i] == b'\\' {
+        self.i += 1;
+      }
+      if self.i < self.d.len() {
+        text.push(self.d[self.i]);
+      }
+      self.i += 1;
+    }
+    self.i = (self.i + 1).min(self.d.len());
+    (s, self.i, String::from_utf8_lossy(&text).into_owned())
+  }
+  fn value(&mut self, ptr: &str) {
+    self.ws(ptr);
+    if self.i >= self.d.len() {
+      return;
+    }
+    match self.d[self.i] {
+      b'{' => {
+        self.mark(self.i, self.i + 1, ptr, "struct");
+        self.i += 1;
+        loop {
+          self.ws(ptr);
+          if self.i >= self.d.len() {
+            return;
+          }
+          if self.d[self.i] == b'}' {
+            self.mark(self.i, self.i + 1, ptr, "struct");
+            self.i += 1;
+            return;
+          }
+          if self.d[self.i] == b',' {
+            self.mark(self.i, self.i + 1, ptr, "struct");
+            self.i += 1;
+            continue;
+          }
+          if self.d[self.i] != b'"' {
+            self.i += 1;
+            continue;
+          }
+          let (s, e, key) = self.string();
+          let child = format!("{ptr}/{key}");
+          self.mark(s, e, &child, "key");
+          self.ws(ptr);
+          if self.i < self.d.len() && self.d[self.i] == b':' {
+            self.mark(self.i, self.i + 1, ptr, "struct");
+            self.i += 1;
+          }
+          self.value(&child);
+        }
+      }
+      b'[' => {
+        self.mark(self.i, self.i + 1, ptr, "struct");
+        self.i += 1;
+        let child = format!("{ptr}/*");
+        loop {
+          self.ws(ptr);
+          if self.i >= self.d.len() {
+            return;
+          }
+          if self.d[self.i] == b']' {
+            self.mark(self.i, self.i + 1, ptr, "struct");
+            self.i += 1;
+            return;
+          }
+          if self.d[self.i] == b',' {
+            self.mark(self.i, self.i + 1, ptr, "struct");
+            self.i += 1;
+            continue;
+          }
+          self.value(&child);
+        }
+      }
+      b'"' => {
+        let (s, e, _) = self.string();
+        self.mark(s, e, ptr, "str");
+      }
+      _ => {
+        let s = self.i;
+        while self.i < self.d.len()
+          && !matches!(self.d[self.i], b',' | b'}' | b']' | b' ' | b'\n' | b'\r' | b'\t')
+        {
+          self.i += 1;
+        }
+        let role = match self.d[s] {
+          b't' | b'f' => "bool",
+          b'n' => "null",
+          _ => "num",
+        };
+        if self.i == s {
+          self.i += 1;
+        }
+        self.mark(s, self.i, ptr, role);
+      }
+    }
+  }
+}
+
+// ------------------------------------------------------------------------------------------------
+// files, damages
+// ------------------------------------------------------------------------------------------------
+
+pub fn file_class(name: &str) -> &'static str {
+  if name == "MANIFEST.json" {
+    "manifest"
+  } else if name == "wal.log" {
+    "wal"
+  } else if name.starts_with("seg_") {
+    "segment"
+  } else {
+    "other"
+  }
+}
+
+pub fn read_tree(root: &Path) -> Result<BTreeMap<String, Vec<u8>>> {
+  fn walk(base: &Path, dir: &Path, out: &mut BTreeMap<String, Vec<u8>>) -> Result<()> {
+    let mut entries: Vec<PathBuf> = std::fs::read_dir(dir)?.map(|e| e.map(|e| e.path())).collect::<std::io::Result<_>>()?;
+    entries.sort();
+    for p in entries {
+      if p.is_dir() {
+        walk(base, &p, out)?;
+      } else {
+        let rel = p.strip_prefix(base).unwrap().to_string_lossy().into_owned();
+        out.insert(rel, std::fs::read(&p)?);
+      }
+    }
+    Ok(())
+  }
+  let mut out = BTreeMap::new();
+  walk(root, root, &mut out)?;
+  Ok(out)
+}
+
+#[derive(Clone, Copy, Debug)]
+pub enum Damage {
+  Flip(usize, u8),
+  Trunc(usize),
+}
+
+/// Damages to try on a file of `len` bytes. Dense: every byte x every mask, every shorter length.
+/// Sampled: first/last bytes, `npos` seeded positions x every mask, `npos/4` seeded lengths plus
+/// 0 and len-1; `all_bytes_mask01` adds every byte with mask 0x01 (used for the manifest, where
+/// 0x01 is the mask that turns one JSON token into another valid one).
+fn damages(len: usize, dense: bool, npos: usize, all_bytes_mask01: bool, r: &mut StdRng) -> Vec<Damage> {
+  let mut out = Vec::new();
+  if len == 0 {
+    return out;
+  }
+  if dense || len <= npos {
+    for off in 0..len {
+      for m in MASKS {
+        out.push(Damage::Flip(off, m));
+      }
+    }
+    for n in 0..len {
+      out.push(Damage::Trunc(n));
+    }
+    return out;
+  }
+  let mut pos: std::collections::BTreeSet<usize> = [0, 1, len / 2, len - 2, len - 1].into_iter().collect();
+  while pos.len() < npos.min(len) {
+    pos.insert(r.gen_range(0..len));
+  }
+  for off in 0..len {
+    if pos.contains(&off) {
+      for m in MASKS {
+        out.push(Damage::Flip(off, m));
+      }
+    } else if all_bytes_mask01 {
+      out.push(Damage::Flip(off, 0x01));
+    }
+  }
+  let mut cuts: std::collections::BTreeSet<usize> = [0, 1, len / 2, len - 1].into_iter().collect();
+  while cuts.len() < (npos / 4).max(4).min(len) {
+    cuts.insert(r.gen_range(0..len));
+  }
+  out.extend(cuts.into_iter().map(Damage::Trunc));
+  out
+}
+
+struct Stats {
+  probes: usize,
+  files: usize,
+  by_outcome: BTreeMap<String, usize>,
+  distinct: std::collections::BTreeSet<String>,
+}
+
+fn run_scenario(scn: usize, seed: u64, dense: bool, npos: usize, tr: &mut Tracer, st: &mut Stats) -> Result<()> {
+  let mut r = rng(seed, 17_000_000 + scn as u64);
+  let scratch = Scratch::new("corrupt");
+  let root = scratch.join("idx");
+  let plan = build_index(&root, &mut r, scn % 2 == 1)?;
+  let pristine_files = read_tree(&root)?;
+  let pristine = probe(&root, true);
+  // the probe may trim the log / create files: put the pristine bytes back after every probe
+  let restore = |name: &str| -> Result<()> {
+    std::fs::write(root.join(name), &pristine_files[name])?;
+    Ok(())
+  };
+  restore("wal.log")?;
+  let again = probe(&root, true);
+  restore("wal.log")?;
+  if pristine.panicked
+    || !pristine.search_ok
+    || !pristine.writer_ok
+    || !pristine.replay_ok
+    || pristine.obs != again.obs
+    || pristine.replay != again.replay
+    || pristine.obs.len() != battery().len()
+  {
+    return Err(anyhow!(
+      "pristine index does not give a stable observation (scenario {scn}): {:?} / {:?}",
+      pristine,
+      again
+    ));
+  }
+  if read_tree(&root)?.keys().ne(pristine_files.keys()) {
+    return Err(anyhow!("probing the pristine index changed its file set"));
+  }
+  let files_json: Vec<Value> = pristine_files
+    .iter()
+    .map(|(n, d)| json!({"name": n, "class": file_class(n), "len": d.len()}))
+    .collect();
+  tr.emit(json!({
+    "ev": "reset", "scn": scn, "dense": dense, "files": files_json, "plan": plan,
+    "obs": pristine.obs, "replay": pristine.replay, "pending": pristine.pending,
+    "queries": battery().iter().map(|b| b.0).collect::<Vec<_>>(),
+  }));
+  for (name, data) in pristine_files.iter() {
+    let class = file_class(name);
+    let ptrs = if class == "manifest" { pointer_classes(data) } else { Vec::new() };
+    st.files += 1;
+    let mut nfile = 0usize;
+    for dmg in damages(data.len(), dense, npos, class == "manifest", &mut r) {
+      let (kind, off, mask, bytes) = match dmg {
+        Damage::Flip(off, m) => {
+          let mut b = data.clone();
+          b[off] ^= m;
+          ("flip", off, m, b)
+        }
+        Damage::Trunc(n) => ("trunc", n, 0u8, data[..n].to_vec()),
+      };
+      std::fs::write(root.join(name), &bytes)?;
+      let p = probe(&root, class == "wal");
+      restore(name)?;
+      restore("wal.log")?;
+      let outcome = outcome_class(class, &p, &pristine);
+      // pointer class: for a flip the token of the flipped byte, for a truncation none
+      let ptr = if kind == "flip" && !ptrs.is_empty() { ptrs[off].clone() } else { String::new() };
+      let diff = if outcome == "DifferentResults" {
+        p.texts
+          .iter()
+          .zip(pristine.texts.iter())
+          .zip(battery().iter())
+          .find(|((a, b), _)| a != b)
+          .map(|((a, b), q)| short(&format!("{}: pristine [{}] damaged [{}]", q.0, b, a)))
+          .unwrap_or_default()
+      } else {
+        String::new()
+      };
+      *st.by_outcome.entry(format!("{class}:{outcome}")).or_default() += 1;
+      st.distinct.insert(format!("{class}|{ptr}|{kind}|{mask}|{outcome}|{}", p.replay.len()));
+      st.probes += 1;
+      nfile += 1;
+      tr.emit(json!({
+        "ev": "probe", "file": name, "class": class, "ptr": ptr, "kind": kind, "off": off,
+        "mask": mask, "open_ok": p.open_ok, "reader_ok": p.reader_ok, "search_ok": p.search_ok,
+        "panic": p.panicked, "obs": p.obs, "replay_ok": p.replay_ok, "replay": p.replay,
+        "pending": p.pending, "writer_ok": p.writer_ok, "outcome": outcome,
+        "err": p.err, "diff": diff,
+      }));
+    }
+    tr.emit(json!({"ev": "file_done", "file": name, "class": class, "len": data.len(), "probes": nfile}));
+  }
+  // the index must be pristine again
+  let end = probe(&root, true);
+  restore("wal.log")?;
+  if end.obs != pristine.obs || read_tree(&root)? != pristine_files {
+    return Err(anyhow!("index was not restored after the probes (scenario {scn})"));
+  }
+  Ok(())
+}
+
+pub fn main(args: &Args) -> Result<()> {
+  let seed = args.u64("seed", 1);
+  let out = args.str("out", "/verif/out/corrupt.ndjson");
+  let n_scn = args.usize("scenarios", 2);
+  let dense = args.flag("dense");
+  let npos = args.usize("positions", 200);
+  let mut tr = Tracer::create(Path::new(&out))?;
+  let mut st = Stats {
+    probes: 0,
+    files: 0,
+    by_outcome: BTreeMap::new(),
+    distinct: Default::default(),
+  };
+  let hook = std::panic::take_hook();
+  std::panic::set_hook(Box::new(|_| {}));
+  let mut res = Ok(());
+  for scn in 0..n_scn {
+    res = run_scenario(scn, seed, dense, npos, &mut tr, &mut st);
+    if res.is_err() {
+      break;
+    }
+  }
+  std::panic::set_hook(hook);
+  res?;
+  let lines = tr.finish();
+  println!(
+    "{}",
+    json!({"scenarios": n_scn, "events": lines, "probes": st.probes, "files": st.files,
+           "distinct": st.distinct.len(), "by_outcome": st.by_outcome, "out": out})
+  );
+  Ok(())
 }
